@@ -267,7 +267,7 @@ def dyn_cases(draw, tier):
     expected = []
     for _ in range(ne):
         j = draw(st.integers(0, n - 1))
-        expected.append([pts[j][0] + draw(st.sampled_from([0.0, 1.0, -1.0, 3.0])), pts[j][1] + draw(st.sampled_from([0.0, 1.0, 2.0]))])
+        expected.append([pts[j][0] + draw(st.sampled_from([0.0, 1.0, -1.0, 3.0, 0.5])), pts[j][1] + draw(st.sampled_from([0.0, 1.0, 2.0, 0.25]))])
     rect_lo = [draw(small), draw(small)]
     rect = [rect_lo, [rect_lo[0] + 1 + draw(small), rect_lo[1] + 1 + draw(small)]]
     rect2_lo = [draw(small), draw(small)]
